@@ -134,6 +134,11 @@ def run(P: Program, R: Report, tier: str) -> None:
     id_truthiness(P, R, "R05.4")
     walk_completeness(P, R, "R05.5")
     bulk_write_arity(P, R, "R05.6")
+    # R05.7 a "fresh" lineage id is fresh: the maximum behind get_next_lineage_id never goes down
+    from .c06 import families, monotone_maxima
+
+    ta = P.class_named("TrackAnnotator")
+    monotone_maxima(P, R, ta, families(P, ta), "R05.7", only_key="lineage", floor=1)
 
 
 ID_SOURCES = ("get_track_neighbors", "get_lineage_id", "get_track_id", "get_next_track_id", "get_next_lineage_id")
